@@ -47,6 +47,10 @@ func c07Run(w *W) {
 	_ = raw
 	mn := w.UseMsgNet()
 	addr := w.Addr("msg")
+	if w.Choose(simrt.SShape, 6) == 0 {
+		w.AlignIDSeed(uint32(w.Choose(simrt.SShape, 4)))
+		w.SetShape("ids_cross_wrap", true)
+	}
 	s := w.Sock("surveyor")
 	defer s.Close()
 	mustSet(w, s, mangos.OptionSurveyTime, T)
